@@ -53,11 +53,31 @@ def _loop_escapes(fi, loop, elem):
     return bad
 
 
-def _check_numeric_site(ctx, fi, accname, rule="C02.D1"):
-    """acc = zeros ; for cg in self.scheme: acc += X(cg) * cg.coefficient"""
+def _accumulator_names(fi):
+    """Role, not name: plain locals updated by an augmented assignment inside a loop over the whole self.scheme."""
+    out = []
+    for n in walk_local(fi.node):
+        if isinstance(n, ast.AugAssign) and isinstance(n.target, ast.Name) and n.target.id not in out:
+            for l in R.enclosing_loops(n):
+                if isinstance(l, ast.For) and _scheme_loop(fi, l)[0] is not None:
+                    out.append(n.target.id)
+                    break
+    return out
+
+
+def _check_numeric_site(ctx, fi, label, rule="C02.D1"):
+    """acc = zeros ; for cg in self.scheme: acc += X(cg) * cg.coefficient       (`label` names the role in the instance key)"""
     c = cfg_of(fi)
     tm = Terms(fi.node, max_depth=0)
-    key = R.key_of(fi, "combine:%s" % accname)
+    key = R.key_of(fi, "combine:%s" % label)
+    accs = _accumulator_names(fi)
+    if len(accs) > 1:
+        # several scheme-loop accumulators: the combined value is the one whose update mentions a coefficient (or, failing that, the first)
+        with_coef = [a for a in accs if any(isinstance(n, ast.AugAssign) and isinstance(n.target, ast.Name) and n.target.id == a
+                                            and any(isinstance(x, ast.Attribute) and x.attr == "coefficient" for x in ast.walk(n.value))
+                                            for n in walk_local(fi.node))]
+        accs = with_coef[:1] or accs[:1]
+    accname = accs[0] if accs else "<none>"
     updates = [n for n in walk_local(fi.node) if isinstance(n, ast.AugAssign) and isinstance(n.target, ast.Name) and n.target.id == accname]
     # only the serial (live) branch counts: the update directly using the scheme element
     sites = []
@@ -68,8 +88,8 @@ def _check_numeric_site(ctx, fi, accname, rule="C02.D1"):
             if elem is not None:
                 sites.append((u, l, elem))
     if not sites:
-        ctx.violation(rule, key, fi.loc(), "no update of `%s` inside a loop over the whole self.scheme was found: %s" %
-                      (accname, "; ".join(filter(None, [_scheme_loop(fi, l)[1] for u in updates for l in R.enclosing_loops(u) if isinstance(l, ast.For)])) or "no accumulation"))
+        ctx.violation(rule, key, fi.loc(), "no accumulating update (`x += ...`) of a local inside a loop over the whole self.scheme was found (%s): %s" %
+                      (label, "; ".join(filter(None, [_scheme_loop(fi, l)[1] for u in updates for l in R.enclosing_loops(u) if isinstance(l, ast.For)])) or "no accumulation"))
         return
     for (u, loop, elem) in sites:
         problems = []
